@@ -803,6 +803,11 @@ def run_streams(ctx):
                     if ip == ipq:
                         stats['F11_name_repaired'] = stats.get('F11_name_repaired', 0) + 1
                         continue
+                if not quiet and isinstance(ip, dict) and ip.get('err') == 'KeyError' and isinstance(ipq, dict) and 'ok' in ipq:
+                    # F11-name (repaired in /repo aa7bfcd; listed under `fixed`): the SAME run completes with --quiet and dies without it on a
+                    # source that has no `name:` key - a progress line must not decide whether the other sources are read
+                    prop_fail.append({'class': 'nameless-source-stops-the-run-without-quiet', 'config_case': w['case'], 'observed': ip,
+                                      'required': 'the run goes on as with --quiet', 'with_quiet': ipq})
                 if ip != mp:
                     plan_fail.append({'config_case': w['case'], 'quiet': quiet, 'settings_as_loaded': w['settings'], 'model': mp, 'implementation': ip})
                     break
